@@ -20,4 +20,5 @@ pub mod common;
 pub mod entry;
 pub mod matrix;
 pub mod programs;
+pub mod scale;
 pub mod structure;
